@@ -769,6 +769,7 @@ result_type parse_url_impl(std::string_view user_input,
           // password, url's host to base's host, url's port to base's port,
           // url's path to a clone of base's path, and url's query to base's
           // query.
+          url.host_type = base_url->host_type;
           if constexpr (result_type_is_ada_url) {
             url.username = base_url->username;
             url.password = base_url->password;
@@ -848,6 +849,7 @@ result_type parse_url_impl(std::string_view user_input,
         // - url's port to base's port,
         // - state to path state, and then, decrease pointer by 1.
         else {
+          url.host_type = base_url->host_type;
           if constexpr (result_type_is_ada_url) {
             url.username = base_url->username;
             url.password = base_url->password;
@@ -1123,6 +1125,7 @@ result_type parse_url_impl(std::string_view user_input,
           // base_url_has_value() is true.
           if (base_url != nullptr && base_url->type == scheme::type::FILE) {
             // Set url's host to base's host.
+            url.host_type = base_url->host_type;
             if constexpr (result_type_is_ada_url) {
               url.host = base_url->host;
             } else {
@@ -1230,6 +1233,7 @@ result_type parse_url_impl(std::string_view user_input,
           // Set url's host to base's host, url's path to a clone of base's
           // path, and url's query to base's query.
           ada_log("FILE base non-null");
+          url.host_type = base_url->host_type;
           if constexpr (result_type_is_ada_url) {
             url.host = base_url->host;
             url.path = base_url->path;
